@@ -8,13 +8,13 @@ from .cgt import trace_family, cgt_family, law_family, report_family, calendar_f
 
 
 def c01(tier, seed):
-    return combine(fam_list(tier, ['core_q', 'edge_q', 'frac_q', 'split_q', 'split5_q', 'two_split_q'], ['core_t', 'split_t', 'two_q']) + [trace_family(tier, seed)], 'multi_leg_disposals',
+    return combine(fam_list(tier, ['core_q', 'edge_q', 'frac_q', 'split_q', 'split5_q', 'two_split_q'], ['core_t', 'split_t', 'two_q', 'sim_t']) + [trace_family(tier, seed)], 'multi_leg_disposals',
                    'every cell ledger of the family (TLC-enumerated) x base dates; non-trivial = ledgers with a disposal '
                    'identified by two or more legs')
 
 
 def c02(tier, seed):
-    return combine(fam_list(tier, ['core_q', 'frac_q', 'split_q', 'split5_q', 'two_split_q'], ['core_t', 'split_t', 'events_q']) + [trace_family(tier, seed)], 'covered',
+    return combine(fam_list(tier, ['core_q', 'frac_q', 'split_q', 'split5_q', 'two_split_q'], ['core_t', 'split_t', 'events_q', 'sim_t']) + [trace_family(tier, seed)], 'covered',
                    'every cell ledger of the family; non-trivial = accepted (covered) ledgers, on which the three '
                    'conservation equalities are evaluated on the implementation\'s own report')
 
